@@ -80,6 +80,9 @@ static const ClassTpl CLASSES[] = {
     {"KBPsK", "BP", ""}, {"KBPsK", "BPP", ""}, {"KBPsKB", "BP", "B"}, {"KBPsKB", "BPP", "B"}, {"KRKP", "R", "P"}, {"KQKP", "Q", "P"},
     {"KQKRPs", "Q", "RP"}, {"KQKRPs", "Q", "RPP"}, {"KmmKm", "BB", "N"}, {"KmmKm", "BN", "B"}, {"KmmKm", "NN", "B"}, {"KmmKm", "BB", "B"},
     {"KXK", "Q", ""}, {"KXK", "R", ""}, {"KXK", "QR", ""}, {"KXK", "BB", ""}, {"KXK", "RP", ""}, {"KXK", "QQQQQQQQQ", ""},
+    // the most material one side can own (eight promotions on top of the original pieces), alone and against material: bounds
+    {"KXK", "QQQQQQQQQRRBBNN", ""}, {"KXK", "QQQQQQQQQRR", ""}, {"KXK", "QQQQQQQRRBBN", ""}, {"KXK", "QRRRRRRRRRRBBNN", ""}, {"KXK", "QRRBBNNNNNNNNNN", ""},
+    {"general", "QQQQQQQQQRRBBNN", "P"}, {"general", "QQQQQQQQQRRBBNN", "QRRBBNN"}, {"general", "QQQQQRRBBNNPPPP", "QRRBBNNPPPPPPPP"},
     {"general", "RP", "RP"}, {"general", "QPP", "RBP"}, {"general", "NPPP", "BPP"}, {"general", "RRPP", "QP"}, {"general", "PP", "P"}, {"general", "PPP", "PP"},
 };
 
